@@ -1,11 +1,15 @@
 #!/bin/sh
-# seedrun.sh <seed dir name> <check ids...> : apply the seeded patch to /repo, run the checks, undo it
+# seedrun.sh <seed dir name> <check ids...> : apply the seeded patch to /repo, run the checks, undo it.
+# The evidence files describe the unchanged tree: they are saved and put back.
 set -u
 d=/verif/seeded/$1; shift
-git -C /repo apply "$d/patch.diff" || { echo "patch does not apply"; exit 2; }
+[ -z "$(git -C /repo status --short)" ] || { echo "/repo has uncommitted changes: refusing"; exit 2; }
+sav=$(mktemp -d /tmp/vf_evid.XXXXXX); cp -a /verif/evidence/. "$sav"/
+git -C /repo apply "$d/patch.diff" || { echo "patch does not apply"; rm -rf "$sav"; exit 2; }
 for c in "$@"; do
   echo "=== check $c with $(basename $d) applied"
   /verif/check $c --tier quick 2>&1 | grep "^VIOLATION\|^OK\|^KNOWN\|violation detail" | head -6
 done
 git -C /repo checkout -- .
 git -C /repo status --short | head -3
+cp -a "$sav"/. /verif/evidence/; rm -rf "$sav"
